@@ -347,6 +347,7 @@ class StorageRunner:
 
     def __init__(self, kind, tmpdir, tag, probe=0.03):
         self.kind = kind
+        self.tmpdir, self.tag = tmpdir, tag
         self.storage, self.base = make_storage(kind, tmpdir, tag)
         self.txns = {}            # t -> TransactionMetaData of the current attempt
         self.pending = {}         # t -> (thread, result list)
@@ -485,6 +486,9 @@ class StorageRunner:
             elif o == 'hist':
                 h = st.history(p64(int(tk[1])), 1000)
                 r = '[' + ','.join(str(u64(d['tid'])) for d in h) + ']'
+            elif o == 'bystander':
+                self.bystander_commit()
+                r = 'ok'
             elif o in ('reopen', 'undo', 'undotxn', 'undomulti') and (self.begun or self.pending):
                 r = 'blocked'       # a transaction is in progress (only the shrinker produces this)
             elif o == 'reopen':
@@ -542,6 +546,25 @@ class StorageRunner:
             return False
         return any(oids != [oid] for oids in txns)
 
+    def bystander_commit(self):
+        """a two-phase commit on ANOTHER FileStorage instance of this process (a second database):
+        storage instances must not share per-transaction state such as the list tpc_vote returns"""
+        from ZODB.Connection import TransactionMetaData
+        from ZODB.FileStorage import FileStorage
+        if getattr(self, 'bystander', None) is None:
+            self.bystander = FileStorage(os.path.join(self.tmpdir, 'bystander-%s.fs' % self.tag), create=True)
+            self.by_n = 0
+        b = self.bystander
+        txn = TransactionMetaData()
+        b.tpc_begin(txn)
+        self.by_n += 1
+        if self.by_n % 2:
+            b.store(p64(1), b.getTid(p64(1)) if self.by_n > 1 else p64(0), make_pickle(2, 0, self.by_n), '', txn)
+            b.tpc_vote(txn)
+            b.tpc_finish(txn)
+        else:
+            b.tpc_abort(txn)
+
     def reopen(self):
         """clean close of the FileStorage (which saves its index) and reopen from the saved index"""
         from ZODB.FileStorage import FileStorage
@@ -576,6 +599,11 @@ class StorageRunner:
             self.storage.close()
         except Exception:
             pass
+        if getattr(self, 'bystander', None) is not None:
+            try:
+                self.bystander.close()
+            except Exception:
+                pass
 
 
 # ------------------------------------------------------------------ recording the calls of a Connection
